@@ -478,10 +478,88 @@ func c08(c *Ctx) {
 		"20% decision-tree shaped (exclusive, often not decidable by a list), 30% unconstrained random, 10% degenerate (0/1 alternatives, empty conjunctions, repeated inputs); " +
 		"35% get 1-2 mutations (flip/drop/swap/insert/retarget literal, shared target, copied conjunction); alternatives shuffled; " +
 		"real lalr.newLookaheadRule via hook, answer = accept/reject + target chosen on every valuation satisfying exactly one alternative; " +
+		"plus every pair of alternatives with <=2 literals over 2 inputs (thorough: also triples, and pairs over 3 inputs with <=3 literals); " +
 		"plus grammars S: L_i a f_i | b L_j a g_j through lalr.Compile (ruleAction/addRule/planner.compile), rule read back from Tables.Lalr/Lookaheads; " +
 		"non-trivial = at least 2 alternatives with a predicate; distinct by alternative list"
-	n := c.N(4000, 150000)
+	n := c.N(4000, 300000)
 	var exactLines, exactGo []string
+	emit := func(alts []c08Alt, gen string) {
+		line := "rule " + c08Encode(alts)
+		rule, kind := c08Run(alts)
+		nontrivial := 0
+		for _, a := range alts {
+			if len(a.lits) > 0 {
+				nontrivial++
+			}
+		}
+		key := ""
+		if nontrivial >= 2 {
+			key = line
+		}
+		res := kind
+		if kind == "" {
+			res = "ok"
+		}
+		c.Count("gen=" + gen + " result=" + res)
+		c.Count(fmt.Sprintf("alternatives=%d", len(alts)))
+		switch {
+		case kind == "":
+			c.Case(line, "ok "+c08Table(alts, rule), key)
+			c08Oracle(c, alts, rule, line)
+			exactGo = append(exactGo, c08Exact(rule))
+		case kind == "panic":
+			c.Case(line, "panic", key)
+			exactGo = append(exactGo, "panic")
+		default:
+			c.Case(line, "err", key)
+			exactGo = append(exactGo, "err "+kind)
+		}
+		exactLines = append(exactLines, "C08 exact "+c08Encode(alts))
+	}
+
+	// exhaustive small universes: every k-tuple of alternatives with at most maxLits literals
+	// (repeated inputs allowed) over nIn inputs
+	exhaustive := func(nIn, maxLits, k int) {
+		var all [][]c08Lit
+		var rec func(cur []c08Lit)
+		rec = func(cur []c08Lit) {
+			all = append(all, append([]c08Lit(nil), cur...))
+			if len(cur) == maxLits {
+				return
+			}
+			for code := 0; code < 2*nIn; code++ {
+				rec(append(cur, c08Lit{code / 2, code%2 == 1}))
+			}
+		}
+		rec(nil)
+		idx := make([]int, k)
+		for {
+			alts := make([]c08Alt, k)
+			for i, j := range idx {
+				alts[i] = c08Alt{all[j], 10 + i}
+			}
+			emit(alts, fmt.Sprintf("exhaustive(%d inputs,<=%d literals,%d alternatives)", nIn, maxLits, k))
+			i := k - 1
+			for i >= 0 {
+				idx[i]++
+				if idx[i] < len(all) {
+					break
+				}
+				idx[i] = 0
+				i--
+			}
+			if i < 0 {
+				return
+			}
+		}
+	}
+	exhaustive(2, 2, 2)
+	if c.Tier == "thorough" {
+		exhaustive(2, 2, 3)
+		exhaustive(3, 2, 2)
+		exhaustive(3, 3, 2)
+	}
+
 	for it := 0; it < n; it++ {
 		r := c.Rng
 		nIn := 1 + r.Intn(5)
@@ -530,41 +608,11 @@ func c08(c *Ctx) {
 		}
 		c08Shuffle(c, alts)
 
-		line := "rule " + c08Encode(alts)
-		rule, kind := c08Run(alts)
-		nontrivial := 0
-		for _, a := range alts {
-			if len(a.lits) > 0 {
-				nontrivial++
-			}
-		}
-		key := ""
-		if nontrivial >= 2 {
-			key = line
-		}
-		res := kind
-		if kind == "" {
-			res = "ok"
-		}
-		c.Count("gen=" + gen + " result=" + res)
-		c.Count(fmt.Sprintf("alternatives=%d", len(alts)))
-		switch {
-		case kind == "":
-			c.Case(line, "ok "+c08Table(alts, rule), key)
-			c08Oracle(c, alts, rule, line)
-			exactGo = append(exactGo, c08Exact(rule))
-		case kind == "panic":
-			c.Case(line, "panic", key)
-			exactGo = append(exactGo, "panic")
-		default:
-			c.Case(line, "err", key)
-			exactGo = append(exactGo, "err "+kind)
-		}
-		exactLines = append(exactLines, "C08 exact "+c08Encode(alts))
+		emit(alts, gen)
 	}
 
 	// planner path
-	nc := c.N(300, 6000)
+	nc := c.N(300, 15000)
 	for it := 0; it < nc; it++ {
 		r := c.Rng
 		nIn := 1 + r.Intn(5)
